@@ -158,9 +158,15 @@ func init() {
 			f := Parse(t.file)
 			fl := FuncDecl(f, t.recv, "Flush")
 			guard, guardOK, passesFull, clears := false, false, false, 0
+			// positions of: the provider call, the `if err != nil { return err }` behind it, the two clears
+			posCall, posErr, posClear := -1, -1, -1
 			if fl != nil && fl.Body != nil {
 				guardOK = true
-				for _, st := range fl.Body.List {
+				for si, st := range fl.Body.List {
+					if ifs, ok := st.(*ast.IfStmt); ok && ifs.Init == nil && nows(Src(ifs.Cond)) == "err!=nil" &&
+						len(ifs.Body.List) == 1 && nows(Src(ifs.Body.List[0])) == "returnerr" && posErr < 0 {
+						posErr = si
+					}
 					if ifs, ok := st.(*ast.IfStmt); ok && ifs.Init == nil {
 						c := nows(Src(ifs.Cond))
 						if c == fmt.Sprintf("len(%s.saves)+len(%s.removes)==0", t.v, t.v) && len(ifs.Body.List) == 1 && nows(Src(ifs.Body.List[0])) == "returnnil" {
@@ -172,18 +178,27 @@ func init() {
 					s := nows(Src(st))
 					if s == fmt.Sprintf("err:=%s.provider.Flush(%s.l,%s.saves,%s.removes)", t.v, t.v, t.v, t.v) {
 						passesFull = true
+						posCall = si
 					}
 					if s == fmt.Sprintf("%s.saves=%s.saves[:0]", t.v, t.v) || s == fmt.Sprintf("%s.removes=%s.removes[:0]", t.v, t.v) {
 						clears++
+						if posClear < 0 {
+							posClear = si
+						}
 					}
 				}
+			}
+			// the order matters: the change lists are cleared only after the provider has succeeded
+			// (a failed flush must leave them for the next one)
+			if !(posCall >= 0 && posErr == posCall+1 && posClear > posErr) {
+				passesFull = false
 			}
 			if !guardOK {
 				e.Unknown(t.recv + ".Flush guard")
 			}
 			e.P("/-- %s Flush returns early when `len(saves)+len(removes) == 0` -/", t.file)
 			e.P("def %sFlushGuard : Bool := %s", t.lean, LeanBool(guard))
-			e.P("/-- … hands the full list to the provider and then clears both change lists -/")
+			e.P("/-- … hands the full list to the provider, returns its error at once, and only then clears both change lists -/")
 			e.P("def %sFlushPassesFull : Bool := %s", t.lean, LeanBool(passesFull && clears == 2))
 			// locks: every method starts with Lock/RLock + deferred unlock
 			var locks []string
